@@ -425,6 +425,53 @@ class Ctx:
     def note(self, k, v):
         self.notes[k] = v
 
+    # ---- parallel exploration (thorough tiers) ------------------------------------------
+    def export(self) -> dict:
+        return {"suites": self.suites, "oracles": self.oracles, "failures": self.failures[:300], "unexplained": self.unexplained[:50],
+                "samples": self.samples[:4], "distribution": dict(self.distribution), "n_distinct": len(self.distinct),
+                "evaluations": self.evaluations, "notes": self.notes}
+
+    def merge(self, d: dict) -> None:
+        for name, st in d["suites"].items():
+            t = self.suites.setdefault(name, {"ops": 0, "agree": 0, "skipped_dom": 0, "disagree": 0, "exhaustive": st.get("exhaustive", False), "first_disagreements": []})
+            for k in ("ops", "agree", "skipped_dom", "disagree"):
+                t[k] += st.get(k, 0)
+            t["first_disagreements"] = (t["first_disagreements"] + st.get("first_disagreements", []))[:5]
+        for name, st in d["oracles"].items():
+            t = self.oracles.setdefault(name, {"cases": 0, "failures": 0, "exhaustive": st.get("exhaustive", False)})
+            t["cases"] += st["cases"]
+            t["failures"] += st["failures"]
+        self.failures.extend(d["failures"])
+        self.unexplained.extend(d["unexplained"])
+        self.samples.extend(d["samples"])
+        self.distribution.update(d["distribution"])
+        self.evaluations += d["evaluations"]
+        self._extra_distinct = getattr(self, "_extra_distinct", 0) + d["n_distinct"]
+
+    def parallel(self, worker, chunks, nproc: int | None = None) -> None:
+        """Run worker(sub_ctx, chunk) for every chunk in forked processes and merge the results.
+        worker must only use its sub-context (seeded from this one and the chunk index)."""
+        import multiprocessing as mp
+        nproc = nproc or min(len(chunks), max(1, (os.cpu_count() or 2) - 1))
+        jobs = [(self.prop, self.tier, self.seed * 7919 + i, self.driver, worker, ch) for i, ch in enumerate(chunks)]
+        with mp.get_context("fork").Pool(nproc) as pool:
+            for res in pool.imap_unordered(_par_entry, jobs):
+                if "infra" in res:
+                    raise InfraError(res["infra"])
+                self.merge(res)
+
+
+def _par_entry(job):
+    prop, tier, seed, driver, worker, chunk = job
+    try:
+        sub = Ctx(prop, tier, seed, driver)
+        worker(sub, chunk)
+        return sub.export()
+    except InfraError as e:
+        return {"infra": str(e)}
+    except Exception:  # noqa: BLE001
+        return {"infra": traceback.format_exc()[-1500:]}
+
 
 # --------------------------------------------------------------------------------------
 # known findings, replays, evidence, verdict
@@ -520,7 +567,7 @@ def finish(ctx: Ctx, proof: dict, meta: dict, boot: dict) -> int:
             "suites": ctx.suites,
             "oracles": ctx.oracles,
             "evaluations": ctx.evaluations,
-            "distinct_nontrivial": len(ctx.distinct),
+            "distinct_nontrivial": len(ctx.distinct) + getattr(ctx, "_extra_distinct", 0),
             "rule": meta.get("rule", "distinct = distinct op line / oracle case; non-trivial = the reply is not an argument error for a malformed op"),
             "distribution": dict(ctx.distribution.most_common(60)),
             "samples": ctx.samples[:12] or ["(none)"],
